@@ -539,6 +539,36 @@ func worldStatesAvoiding(fn *ssa.Function, world map[ssa.Value]bool, stop func(*
 	return out
 }
 
+// worldReachFrom: blocks reachable from start (entered from its dominator) when the given boolean values are fixed.
+func worldReachFrom(fn *ssa.Function, start *ssa.BasicBlock, world map[ssa.Value]bool) map[*ssa.BasicBlock]bool {
+	reach := map[*ssa.BasicBlock]bool{}
+	seen := map[wstate]bool{}
+	work := []wstate{{start, nil}}
+	for len(work) > 0 {
+		s := work[len(work)-1]
+		work = work[:len(work)-1]
+		if seen[s] {
+			continue
+		}
+		seen[s] = true
+		reach[s.b] = true
+		succs := s.b.Succs
+		if iff, ok := s.b.Instrs[len(s.b.Instrs)-1].(*ssa.If); ok {
+			if v, ok := worldEval(world, iff.Cond, s, 0); ok {
+				if v {
+					succs = succs[:1]
+				} else {
+					succs = succs[1:]
+				}
+			}
+		}
+		for _, n := range succs {
+			work = append(work, wstate{n, s.b})
+		}
+	}
+	return reach
+}
+
 func worldReach(fn *ssa.Function, world map[ssa.Value]bool) map[*ssa.BasicBlock]bool {
 	reach := map[*ssa.BasicBlock]bool{}
 	for _, s := range worldStates(fn, world) {
